@@ -13,6 +13,8 @@ C19-mro    MultiFunction / Transformer resolve a handler by walking classobject.
 C19-key    DAGTraverser.__call__ memoises on (node, all keyword arguments) - shared MEMO-KEY rule with
            the lossy-projection clause.
 C19-exh    T-EXH over all algorithm classes: every concrete type resolves to some handler.
+C19-mro/cache  the per-class handler table must be found under the exact algorithm class: a dict keyed by the
+           class, or the class's own namespace - not attribute lookup, which follows the MRO (shared with C20).
 """
 
 from __future__ import annotations
